@@ -651,6 +651,32 @@ def alias_cases():
 
     out.append(Case(f"{PROP}/sevm.SEVM.resolve_address_alias", "cached `no account`, then an account is added (set_code)", harness_stale, replay=replay_script("alias_cache_after_etch.py", "EXTCODESIZE(a); vm.etch(0x1234, code); EXTCODESIZE(a) with a == 0x1234 possible"), sources=("halmos.sevm:SEVM.resolve_address_alias", "halmos.sevm:Exec.set_code")))
 
+    def harness_nobranch(interp):
+        """vm.store / vm.load / setArbitraryStorage resolve their account with allow_branching=False: when more than one account (or none) is
+        possible the path is given up with a flagged error; one candidate is never picked silently"""
+        from halmos.exceptions import HalmosException
+
+        ctx = interp.ctx
+        t = z3.BitVec("target", 160)
+        A1, A2 = z3.BitVecVal(0xAAAA0001, 160), z3.BitVecVal(0xAAAA0002, 160)
+        oracle = Oracle(ctx, z3.Bool("PC"))
+        path = RecPath()
+        ex = NS(code={hs.FOUNDRY_TEST: "<test>", A1: "<c1>", A2: "<c2>"}, alias={}, check=oracle, path=path, pc=9)
+        made = []
+        sevm = NS(create_branch=lambda e, cond, pc: (made.append(cond), NS(alias=dict(e.alias), path=NS(appended=[])))[1])
+        try:
+            r = interp.call(hs.SEVM.__dict__["resolve_address_alias"], [sevm, ex, t, NS(push=lambda e: None)], {"allow_branching": False})
+        except InfeasiblePath:
+            return
+        except HalmosException:
+            ctx.oblige("without branching: several possible accounts end the path with a flagged error", z3.BoolVal(not made and not path.appended))
+            return
+        # it returned: then exactly one candidate was possible, i.e. every other one is excluded by the path condition PC
+        others = [a for a in (A1, A2) if r is None or not z3.eq(a, r)]
+        ctx.oblige("without branching: an account is only returned if it is the ONLY possible one (nothing else is silently excluded)", z3.And(*[z3.Implies(z3.Bool("PC"), t != a) for a in others], z3.BoolVal(not made)) if r is not None else z3.And(*[z3.Implies(z3.Bool("PC"), t != a) for a in (A1, A2)]), info={"returned": str(r)})
+
+    out.append(Case(f"{PROP}/sevm.SEVM.resolve_address_alias", "allow_branching=False (vm.store / vm.load / arbitrary storage), two accounts possible", harness_nobranch, sources=("halmos.sevm:SEVM.resolve_address_alias",)))
+
     def harness_gone(interp):
         ctx = interp.ctx
         t = z3.BitVec("target", 160)
@@ -861,6 +887,10 @@ def path_cases():
         # ownership: what one path learns later must not become visible to its sibling
         own = child.conditions is not parent.conditions and child.concretization is not parent.concretization and child.concretization.substitution is not parent.concretization.substitution and child.concretization.candidates is not parent.concretization.candidates and child.related is not parent.related and child.var_to_conds is not parent.var_to_conds
         ctx.oblige("ownership: conditions, substitution map, candidate map and dependency maps of the successor are its own copies", z3.BoolVal(own))
+        # ... and nothing else that can be written is shared: every attribute holding a mutable container is either the successor's own object or one
+        # of the two that are shared on purpose (the solver with its push/pop discipline; term_to_vars, a memo of a pure function of the term alone)
+        shared = sorted(n for n in set(vars(child)) & set(vars(parent)) if getattr(child, n) is getattr(parent, n) and isinstance(getattr(child, n), (dict, list, set, bytearray)) and n not in ("term_to_vars",))
+        ctx.oblige("ownership: no other mutable container of the parent path is handed to the successor (memo tables, caches: what one path learnt under its own conditions does not hold on its sibling)", z3.BoolVal(not shared), info={"shared": str(shared)})
         ctx.oblige("the copies start equal to the parent's", z3.BoolVal(child.concretization.substitution == parent.concretization.substitution and child.concretization.candidates == parent.concretization.candidates and dict(child.var_to_conds) == dict(parent.var_to_conds)))
         # frame: a fact learnt by the parent afterwards does not reach the pending successor
         hs.Path.append(parent, x == 9, True)
@@ -1088,6 +1118,15 @@ def extend_path_cases():
     return rewrap(PROP, c11.path_growth_cases(), "start-of-run-ownership", lambda c: "extend_path" in c.unit)
 
 
+def input_space_ref():
+    """no admissible input is excluded up front: a ranged symbol admits exactly [min, max] (unsigned; C14's unit) and a dynamic array has one
+    free element per index below its LARGEST length candidate, in whatever order the candidates are listed (C12's unit)"""
+    from contracts import c12, c14
+    from contracts.common import rewrap
+
+    return rewrap(PROP, c14.create_cases(), "ranged-symbols", lambda c: "min_max" in c.unit) + rewrap(PROP, c12.encode_cases(), "array-elements", lambda c: "sizes=" in c.case)
+
+
 def storage_copy_ref():
     """every copy of the state (fork, new transaction, restore after a failed frame) keeps the arbitrary-storage marker of each account:
     without it untouched slots read as 0 and the inputs with another initial value are covered by no path (C08's unit)"""
@@ -1105,6 +1144,67 @@ def setup_selection_ref():
     return rewrap(PROP, c10.setup_selection_cases(), "timeout-keeps-the-path")
 
 
+def multi_return_cases():
+    """a cheatcode that returns several alternatives (svm.createCalldata*) forks the path in SEVM.call: one successor per alternative; the state
+    that goes on in place keeps the shared solver as it is, so it has to be pushed LAST (taken first), and its siblings are branched off it
+    before it is touched"""
+    import ast as _ast
+
+    import halmos.sevm as hs
+    from pyvc.interp import Env
+    from halmos.bytevec import ByteVec
+
+    out = []
+    for n in (1, 2, 3):
+
+        def harness(interp, n=n):
+            ctx = interp.ctx
+            sf, node = loader.func_node(hs.SEVM.call)
+            inner = [x for x in _ast.walk(node) if isinstance(x, _ast.FunctionDef) and x.name == "call_unknown"]
+            if len(inner) != 1:
+                raise loader.BindingError("SEVM.call: nested call_unknown not found")
+            body = inner[0].body
+            start = [k for k, st in enumerate(body) if isinstance(st, _ast.Assign) and any(isinstance(t, _ast.Name) and t.id == "ret_lst" for t in st.targets)]
+            if len(start) != 1:
+                raise loader.BindingError("call_unknown: `ret_lst = ...` not found")
+            frag = body[start[0] :]
+            rets = [ByteVec(bytes([k + 1]) * 4) for k in range(n)]
+            events = []
+
+            class Ex:
+                def __init__(self, tag):
+                    self.tag = tag
+                    self.context = NS(trace=[], depth=1)
+                    self.pc = 5
+                    self.advanced = 0
+
+                def advance(self, *a, **k):
+                    self.advanced += 1
+
+            ex = Ex("running")
+
+            def create_branch(e, cond, pc):
+                events.append(("branch", e.tag, len(e.context.trace), e.advanced))
+                b = Ex(f"sibling{len([x for x in events if x[0] == 'branch'])}")
+                return b
+
+            pushed = []
+            copied = []
+            interp.externals[hs.copy_returndata_to_memory] = lambda i, *a, **k: copied.append((a[3], a[0]))
+            env = Env({"self": NS(create_branch=create_branch), "ex": ex, "ret": rets if n > 1 else rets[0], "ret_loc": 0, "ret_size": 4, "message": NS(tag="msg"), "stack": NS(push=lambda e: pushed.append(e))}, None, hs.__dict__)
+            kind, payload, _ = interp.exec_fragment(frag, env, qual="halmos.sevm:SEVM.call#multi-return", is_gen=False)
+            ctx.oblige("the return loop runs to its end", z3.BoolVal(kind in ("fallthrough", "return")), info={"kind": kind, "payload": str(payload)[:120]})
+            ctx.oblige("one successor per alternative, the running state among them, each pushed once", z3.BoolVal(len(pushed) == n and len({id(e) for e in pushed}) == n and any(e is ex for e in pushed)))
+            if len(pushed) == n and any(e is ex for e in pushed):
+                ctx.oblige("the state that goes on in place is pushed last (it is taken next: the shared solver still holds exactly its conditions)", z3.BoolVal(pushed[-1] is ex), info={"order": [e.tag for e in pushed]})
+                got = sorted(bytes(e.context.trace[-1].output.data.unwrap()) for e in pushed if e.context.trace)
+                ctx.oblige("each successor gets one alternative as its return data (recorded as a sub-frame) and every alternative is used", z3.BoolVal(got == sorted(bytes(r.unwrap()) for r in rets) and all(len(e.context.trace) == 1 and e.advanced == 1 for e in pushed)))
+                ctx.oblige("siblings are branched off the running state before it is modified", z3.BoolVal(all(ev[1] == "running" and ev[2] == 0 and ev[3] == 0 for ev in events if ev[0] == "branch")), info={"events": str(events)})
+
+        out.append(Case(f"{PROP}/sevm.SEVM.call#multi-return", f"{n} alternative(s)", harness, replay=replay_script("multi_return_order.py", "svm.createCalldata with three alternatives, two of which branch on x == 5 while the first asserts x != 6"), sources=("halmos.sevm:SEVM.call",)))
+    return out
+
+
 def grounds():
     from contracts.common import ground_script
     from pyvc.pack import Ground
@@ -1113,7 +1213,7 @@ def grounds():
 
 
 def build_cases(tier="quick"):
-    return storage_copy_ref() + setup_selection_ref() + extend_path_cases() + prank_funds_cases() + jumpi_cases() + check_cases() + select_cases() + calldataload_cases() + funds_cases() + alias_cases() + symbolic_jump_cases() + path_cases() + worklist_cases()
+    return multi_return_cases() + input_space_ref() + storage_copy_ref() + setup_selection_ref() + extend_path_cases() + prank_funds_cases() + jumpi_cases() + check_cases() + select_cases() + calldataload_cases() + funds_cases() + alias_cases() + symbolic_jump_cases() + path_cases() + worklist_cases()
 
 
 ASSUMPTIONS = [
